@@ -206,7 +206,10 @@ impl<'a, 'b> GeneratorState<'a> {
             }
             self.deferred_plusplus = outer;
             self.sasm(PLP)?;
-            (self.flags, self.acc_in_use, self.carry_flag_ok) = state;
+            (self.acc_in_use, self.carry_flag_ok) = (state.1, state.2);
+            // The flags are those of the value that was tested, but what they described has
+            // changed since (a variable was incremented, Y is another Y)
+            self.flags = FlagsState::Unknown;
         }
         Ok(())
     }
